@@ -672,7 +672,8 @@ class Reciprocal(Transform):
 
     def _jacobian(self, x):
         nu = self.params.values[0]
-        return np.where(x > - nu, 1. / (nu + x)**2, np.nan)
+        # (two divisions: the square overflows for arguments beyond 1e154)
+        return np.where(x > - nu, 1. / (nu + x) / (nu + x), np.nan)
 
     def params_sample(self, nsamples=500, minval=-7., maxval=0.):
         # Generate parameters samples in log space
